@@ -8,6 +8,7 @@ import (
 	"net"
 	"os"
 	"sync"
+	"time"
 
 	"github.com/sheerbytes/sheerbytes/pkg/manifest"
 )
@@ -44,6 +45,20 @@ type vLink struct {
 }
 
 var errVLost = errors.New("connection lost")
+
+// vPipeSlow: native pacing (see Read): 0 none, 1 data streams late, 2 control stream late
+var vPipeSlow int
+
+// vPaced runs an end-to-end scenario; natively three times - unpaced, data late, control late - because
+// which stream's bytes are seen first is the Go scheduler's choice there.
+func vPaced(body func()) {
+	for iter := 0; iter < vRepeat(3); iter++ {
+		vResetInputs()
+		vPipeSlow = iter
+		body()
+	}
+	vPipeSlow = 0
+}
 
 func (l *vLink) newPipe() *vPipe {
 	p := &vPipe{note: make(chan struct{}, 1), link: l}
@@ -99,6 +114,13 @@ type vPipeStream struct {
 }
 
 func (s *vPipeStream) Read(b []byte) (int, error) {
+	if !vSymbolic() && vPipeSlow != 0 {
+		// native pacing only: one kind of stream is delivered late, so that the other kind overtakes it (the
+		// engine explores schedules itself). Pipes 0 and 1 are the control stream's two directions.
+		if i := s.r.link.index(s.r); (vPipeSlow == 1 && i >= 2) || (vPipeSlow == 2 && i < 2) {
+			time.Sleep(15 * time.Millisecond)
+		}
+	}
 	for {
 		s.r.mu.Lock()
 		if len(s.r.buf) > 0 {
@@ -206,9 +228,9 @@ func (c *vPipeConn) Close() error         { return nil }
 // from the real sender to the real receiver. Asserted: both endpoints come back (no state in which
 // everybody waits), both report success, and the output holds exactly the two files with the source's
 // bytes.
-func H_C01_endtoend()              { vC01EndToEnd([]int{1, 4, 5, 8}, 2) }
-func H_C01_endtoend_preempt()      { vC01EndToEnd([]int{5}, 0) }
-func H_C01_endtoend_preempt_deep() { vC01EndToEnd([]int{4, 5, 8}, 2) }
+func H_C01_endtoend()              { vPaced(func() { vC01EndToEnd([]int{1, 4, 5, 8}, 2) }) }
+func H_C01_endtoend_preempt()      { vPaced(func() { vC01EndToEnd([]int{5}, 0) }) }
+func H_C01_endtoend_preempt_deep() { vPaced(func() { vC01EndToEnd([]int{4, 5, 8}, 2) }) }
 
 // resumeMode: 0 off, 1 on, 2 either
 func vC01EndToEnd(sizes []int, resumeMode int) {
@@ -250,23 +272,23 @@ func vC01EndToEnd(sizes []int, resumeMode int) {
 // damaged (torn write) - then its CRC differs from the source chunk's (assumption A-CRC3). The real
 // sender asks for the report, plans from what the real receiver answers, verifies the last chunk by hash
 // and sends. Asserted: both come back, both report success, the file equals the source.
-func H_C04_endtoend()      { vC04EndToEnd([]int{5}, false) }
-func H_C04_endtoend_deep() { vC04EndToEnd([]int{5, 8, 9}, false) }
+func H_C04_endtoend()      { vPaced(func() { vC04EndToEnd([]int{5}, false) }) }
+func H_C04_endtoend_deep() { vPaced(func() { vC04EndToEnd([]int{5, 8, 9}, false) }) }
 
 // H_C04_endtoend_tail: as H_C04_endtoend with two data streams and a verification tail of one chunk (the
 // sender re-sends the chunk before the verification point: duplicates that can arrive on the other stream
 // while the file completes).
 func H_C04_endtoend_tail() {
 	vC04Streams, vC04Tail = 2, 1
-	vC04EndToEnd([]int{9}, false)
+	vPaced(func() { vC04EndToEnd([]int{9}, false) })
 	vC04Streams, vC04Tail = 1, 0
 }
 
 var vC04Streams, vC04Tail = 1, 0
 
 // H_C06_repair: the same second run, where the highest chunk the metadata marks is damaged on disk.
-func H_C06_repair()      { vC04EndToEnd([]int{5}, true) }
-func H_C06_repair_deep() { vC04EndToEnd([]int{5, 8, 9}, true) }
+func H_C06_repair()      { vPaced(func() { vC04EndToEnd([]int{5}, true) }) }
+func H_C06_repair_deep() { vPaced(func() { vC04EndToEnd([]int{5, 8, 9}, true) }) }
 
 func vC04EndToEnd(sizes []int, tornLastChunk bool) {
 	size := sizes[vChoice("sizeIdx", len(sizes))]
@@ -342,7 +364,9 @@ func vC04EndToEnd(sizes []int, tornLastChunk bool) {
 // one 1-byte file on four streams (fewer chunks than streams), two files on two streams - between the
 // real sender and the real receiver, resume on or off: both come back and report success, the tree is
 // the announced one.
-func H_C03_endtoend() {
+func H_C03_endtoend() { vPaced(vC03_endtoend) }
+
+func vC03_endtoend() {
 	dir := vTempDir()
 	out := dir + "/out"
 	var m manifest.Manifest
@@ -413,7 +437,9 @@ func H_C03_endtoend() {
 // sender->receiver), between two writes or in the middle of one, with or without the bytes in flight.
 // Each side must come back; a side that reports success implies the file is complete and identical,
 // and the sender reports success only if the receiver had confirmed (then the file is identical too).
-func H_C02_endtoend_lost() {
+func H_C02_endtoend_lost() { vPaced(vC02_endtoend_lost) }
+
+func vC02_endtoend_lost() {
 	size := 5
 	src := vBytes("src", size)
 	dir := vTempDir()
@@ -452,7 +478,9 @@ func H_C02_endtoend_lost() {
 // H_C02_endtoend_cancel: the caller of the real sender or of the real receiver cancels its context at
 // some moment of a transfer over a working connection. Both sides must come back; a side that reports
 // success implies the file is complete and identical.
-func H_C02_endtoend_cancel() {
+func H_C02_endtoend_cancel() { vPaced(vC02_endtoend_cancel) }
+
+func vC02_endtoend_cancel() {
 	size := 5
 	src := vBytes("src", size)
 	dir := vTempDir()
@@ -500,8 +528,8 @@ func H_C02_endtoend_cancel() {
 // stream (either direction); whatever that leaves in the output directory - partial file, resume
 // metadata or none - is what run 2 (new connection, same directories, resume on) starts from. Run 2
 // must succeed on both sides and leave the file identical to the source.
-func H_C04_chain()      { vC04Chain([]int{5}, 12) }
-func H_C04_chain_deep() { vC04Chain([]int{5, 9}, 24) }
+func H_C04_chain()      { vPaced(func() { vC04Chain([]int{5}, 12) }) }
+func H_C04_chain_deep() { vPaced(func() { vC04Chain([]int{5, 9}, 24) }) }
 
 func vC04Chain(sizes []int, cuts int) {
 	size := sizes[vChoice("sizeIdx", len(sizes))]
